@@ -11,8 +11,9 @@ import (
 // scheduler run the holder instead. Read locks are treated as exclusive.
 
 type lockState struct {
-	owner int
-	depth int
+	owner   int         // writer (or sole holder of a Mutex / Once)
+	depth   int         // 1 while write-locked
+	readers map[int]int // task -> read locks held (RWMutex only)
 }
 
 var (
@@ -36,7 +37,10 @@ func taskID() int {
 // happened under the lock and is only noticed at the first yield after it.
 var LockEpoch uint64
 
-// LocksHeld reports how many simulated locks (incl. running Once bodies) the
+// readLocks counts read locks per task.
+var readLocks = map[int]int{}
+
+// LocksHeld reports how many simulated *exclusive* locks (incl. running Once bodies) the
 // running task holds. Writes to package-level state are tolerated by the
 // monitors only while this is > 0.
 func LocksHeld() int { return lockDepth[taskID()] }
@@ -47,8 +51,20 @@ func MutexLock(m interface{}) {
 	id := taskID()
 	for {
 		st := locks[m]
-		if st == nil || st.depth == 0 {
-			locks[m] = &lockState{owner: id, depth: 1}
+		if st == nil {
+			st = &lockState{}
+			locks[m] = st
+		}
+		if st.depth == 0 {
+			if r := st.otherReader(id); r >= 0 {
+				// readers of other tasks hold the lock: run one of them
+				if !on || quiet > 0 {
+					panic("verifrt: lock held by a parked task while yields are paused")
+				}
+				runHolder(r, id)
+				continue
+			}
+			st.owner, st.depth = id, 1
 			lockDepth[id]++
 			LockAcquires++
 			return
@@ -77,7 +93,68 @@ func MutexLock(m interface{}) {
 	}
 }
 
-// MutexUnlock replaces Unlock/RUnlock.
+func (st *lockState) otherReader(id int) int {
+	for t, n := range st.readers {
+		if n > 0 && t != id {
+			return t
+		}
+	}
+	return -1
+}
+
+// RLock replaces (*sync.RWMutex).RLock: readers share the lock, a writer excludes them.
+func RLock(m interface{}) {
+	syncPoint()
+	id := taskID()
+	for {
+		st := locks[m]
+		if st == nil {
+			st = &lockState{readers: map[int]int{}}
+			locks[m] = st
+		}
+		if st.readers == nil {
+			st.readers = map[int]int{}
+		}
+		if st.depth == 0 || st.owner == id {
+			st.readers[id]++
+			readLocks[id]++
+			LockAcquires++
+			return
+		}
+		if !on || quiet > 0 {
+			panic("verifrt: lock held by a parked task while yields are paused")
+		}
+		runHolder(st.owner, id)
+	}
+}
+
+// RUnlock replaces (*sync.RWMutex).RUnlock.
+func RUnlock(m interface{}) {
+	id := taskID()
+	st := locks[m]
+	if st == nil || st.readers[id] == 0 {
+		panic("sync: RUnlock of unlocked RWMutex")
+	}
+	st.readers[id]--
+	readLocks[id]--
+	syncPoint()
+}
+
+func runHolder(holder, id int) {
+	var nx *task
+	for _, t := range tasks {
+		if t.id == holder && !t.done {
+			nx = t
+		}
+	}
+	if nx == nil {
+		violate("deadlock", fmt.Sprintf("task %d waits for a lock whose holder (task %d) has finished", id, holder), 0)
+	}
+	rep.Switches++
+	switchTo(nx, 0)
+}
+
+// MutexUnlock replaces Unlock.
 func MutexUnlock(m interface{}) {
 	st := locks[m]
 	if st == nil || st.depth == 0 {
@@ -120,5 +197,6 @@ func OnceDo(o *sync.Once, f func()) {
 func syncReset() {
 	locks = map[interface{}]*lockState{}
 	lockDepth = map[int]int{}
+	readLocks = map[int]int{}
 	// onceDone deliberately survives runs, like real Once values do
 }
